@@ -6,6 +6,7 @@ uninterpreted (see mathx.py). Every truthiness test of a SymBool forks the path.
 import fractions
 import math
 import z3
+import time as _time
 
 Fraction = fractions.Fraction
 
@@ -168,6 +169,9 @@ class Ctx:
             if len(self.decisions) >= self.max_decisions:
                 self.cut_reason = 'decision budget'
                 raise PathCut('decision budget')
+            if DEADLINE[0] and _time.time() > DEADLINE[0]:
+                self.cut_reason = 'time budget'
+                raise PathCut('group time budget used up during path exploration')
             s = self.solver
             s.push(); s.add(zb); rt = s.check(); s.pop()
             s.push(); s.add(z3.Not(zb)); rf = s.check(); s.pop()
@@ -410,7 +414,9 @@ class SymReal:
         r = s._c(o, lambda a, b: a != b)
         return SymBool(z3.BoolVal(True)) if r is NotImplemented else r
 
-    __hash__ = None
+    def __hash__(s):
+        # hash of the term: syntactically identical symbolic values collide (and compare equal), as equal floats would in a cache key
+        return hash(('SymReal', s.z.hash()))
 
     def __bool__(s):
         return bool(SymBool(s.z != 0))
@@ -520,6 +526,9 @@ class Path:
         return 'Path(%s, %r, |pc|=%d)' % (self.kind, self.value if self.kind != 'return' else '...', len(self.pc))
 
 
+DEADLINE = [0.0]      # wall-clock limit for path exploration, set per obligation group by ob.start_budget
+
+
 def explore(fn, max_paths=400, loop_bound=2, max_decisions=60, feas_timeout_ms=300, setup=None):
     """Run fn() under every feasible decision sequence. Returns (paths, stats)."""
     global CTX
@@ -529,6 +538,12 @@ def explore(fn, max_paths=400, loop_bound=2, max_decisions=60, feas_timeout_ms=3
     while work:
         if len(out) >= max_paths:
             stats['budget_exceeded'] = True
+            break
+        if DEADLINE[0] and _time.time() > DEADLINE[0] + 30:
+            # the group's wall budget is gone: report what is left as cut (inconclusive), never as held
+            stats['budget_exceeded'] = True
+            c = Ctx([], feas_timeout_ms=feas_timeout_ms, max_decisions=max_decisions, loop_bound=loop_bound)
+            out.append(Path('cut', 'group time budget used up: %d unexplored path prefixes' % len(work), c))
             break
         pref = work.pop()
         c = Ctx(pref, feas_timeout_ms=feas_timeout_ms, max_decisions=max_decisions, loop_bound=loop_bound)
